@@ -103,7 +103,7 @@ def main():
                 out.append(f(c))
             except Exception as e:
                 out.append({"err": type(e).__name__, "outer": True})
-    _real_stdout.write("@@JSON@@" + json.dumps({"results": out, "captured": _cap.getvalue()[-2000:]}) + "\n")
+    _real_stdout.write("@@JSON@@" + json.dumps({"results": out, "captured": _cap.getvalue()[-2000:]}, default=repr) + "\n")
 
 
 if __name__ == "__main__":
